@@ -24,6 +24,7 @@ def scenarios(pid, quick, rng):
     else:
         S.append(dict(name="clone-of-snapshot", rf=1, steps=syslib.clone_scenario()))
         S.append(dict(name="clone-with-stalled-source", rf=1, steps=syslib.clone_with_stalled_source()))
+        S.append(dict(name="clone-with-failing-reload", rf=1, steps=syslib.clone_with_failing_reload()))
         if not quick:
             for i in range(6):
                 S.append(dict(name="clone-again-%d" % i, rf=1, steps=syslib.clone_scenario()))
